@@ -9,25 +9,93 @@ import re
 import vlib
 from runner import Property, ExecError
 from vlib import cz, clist, cbool
+from c16sim import QueueSim, SafeMapSim, LruSim
 
 T0_BASE = 10 ** 15          # virtual clock base (0 means "unset" elsewhere in go-zero)
 TAG = 1 << 32               # Set keys: tag * 2^32 + value
 TICK_MS = 1000              # the cache's timing wheel interval (cache.go: time.Second)
 SLACK_MS = 400              # scheduling slack allowed around the expiry window
 
-# The shared evaluator shards 400 cases per coqc process; C16 has a few heavy cases
-# (SafeMap histories with > 20000 primitive operations) and fewer than 16 * 400 cases,
-# so use smaller shards to keep all cores busy.  Only this process is affected.
+# The shared evaluator cuts the list of cases into equal consecutive shards; C16 has a few heavy
+# cases (SafeMap histories with tens of thousands of primitive operations: 5..25 s each) among
+# hundreds of light ones, so the cases are spread over the cores by estimated weight (longest
+# first into the lightest bin), each bin one coqc process.  Only this process is affected.
 _coq_eval_cases = vlib.coq_eval_cases
 
 
-def _eval_small_shards(prop, check_module, terms, preamble="", shard=400, timeout=900):
-    if prop == "C16":
-        shard = max(1, min(48, (len(terms) + vlib.NCPU - 1) // vlib.NCPU))
-    return _coq_eval_cases(prop, check_module, terms, preamble=preamble, shard=shard, timeout=timeout)
+_BULK = re.compile(r"MChurn \S+ \S+ (\d+)|MSetSeq \S+ (\d+) \S+|MDelSeq \S+ (\d+)")
 
 
-vlib.coq_eval_cases = _eval_small_shards
+def _term_weight(t):
+    """Estimated cost in list-element visits (about 2e6 per second): a light case is ~45 ms; a
+    SafeMap bulk operation costs (number of primitive operations) x (keys alive)."""
+    w = 60000 + 30 * len(t)
+    if "MChurn" in t or "MSetSeq" in t or "MDelSeq" in t:
+        live = 3
+        for m in _BULK.finditer(t):
+            if m.group(1):
+                w += 2 * int(m.group(1)) * live
+            elif m.group(2):
+                n = int(m.group(2))
+                w += n * (live + n // 2)
+                live += n
+            else:
+                w += int(m.group(3)) * live
+    return w
+
+
+HEAVY = 4 * 10 ** 6      # above this, agrees and prop_ok of one case are evaluated by two processes
+
+
+def _eval_balanced(prop, check_module, terms, preamble="", shard=400, timeout=900):
+    if prop != "C16" or len(terms) < 2:
+        return _coq_eval_cases(prop, check_module, terms, preamble=preamble, shard=shard, timeout=timeout)
+    import concurrent.futures
+    import time as _t
+    jobs = []                       # (weight, term index, what)
+    for i, t in enumerate(terms):
+        w = _term_weight(t)
+        if w > HEAVY:
+            jobs += [(w // 2, i, "a"), (w // 2, i, "p")]
+        else:
+            jobs.append((w, i, "ap"))
+    nb = min(vlib.NCPU, len(jobs))
+    bins = [[0, []] for _ in range(nb)]
+    for j in sorted(jobs, key=lambda j: -j[0]):
+        b = min(bins, key=lambda b: b[0])
+        b[0] += j[0]
+        b[1].append(j)
+    expr = {"ap": "(agrees c%d, prop_ok c%d)", "a": "(agrees c%d, true)", "p": "(true, prop_ok c%d)"}
+
+    def work(ix):
+        js = bins[ix][1]
+        body = ["From Coq Require Import List ZArith String.", "From GZ Require Import %s." % check_module,
+                "Import ListNotations.", "Open Scope Z_scope.", preamble]
+        for n, (_, i, what) in enumerate(js):
+            body.append("Definition c%d : case := %s." % (n, terms[i]))
+            body.append("Eval vm_compute in %s." % (expr[what] % ((n, n) if what == "ap" else (n,))))
+        t0 = _t.time()
+        rc, out = vlib._coqc_tmp("%s_cases_%d_%d" % (prop, os.getpid(), ix), "\n".join(body) + "\n", timeout)
+        if os.environ.get("C16_DEBUG"):
+            print("bin %d: %d jobs, weight %d, %.1fs" % (ix, len(js), bins[ix][0], _t.time() - t0), flush=True)
+        if rc != 0:
+            at = out.find("Error")
+            raise RuntimeError("coqc failed on case shard %d (rc %s):\n%s"
+                               % (ix, rc, out[max(0, at - 1500):at + 2500] if at >= 0 else out[-4000:]))
+        rs = [(x == "true", y == "true") for x, y in vlib.PAIR_RE.findall(out)]
+        if len(rs) != len(js):
+            raise RuntimeError("case shard %d: expected %d results, got %d\n%s" % (ix, len(js), len(rs), out[-2000:]))
+        return rs
+
+    res = [(True, True)] * len(terms)
+    with concurrent.futures.ThreadPoolExecutor(max_workers=nb) as ex:
+        for ix, rs in enumerate(ex.map(work, range(nb))):
+            for (_, i, _what), (a, p) in zip(bins[ix][1], rs):
+                res[i] = (res[i][0] and a, res[i][1] and p)
+    return res
+
+
+vlib.coq_eval_cases = _eval_balanced
 
 
 DUR = {"time.Nanosecond": 1, "time.Microsecond": 10 ** 3, "time.Millisecond": 10 ** 6, "time.Second": 10 ** 9,
@@ -157,12 +225,17 @@ class C16(Property):
 
     def prepare(self, ctx):
         ov = os.path.join(vlib.HARNESS, "overlay", "timex")
-        ok, res = vlib.go_build("c16", overlay={
-            "core/timex/relativetime.go": os.path.join(ov, "relativetime.go"),
-            "core/timex/ticker.go": os.path.join(ov, "ticker.go")})
+        ok, res = vlib.go_build("c16", overlay=self._overlay())
         self.bin = res if ok else None
         self._consts()
         return ok, ("" if ok else res)
+
+    @staticmethod
+    def _overlay():
+        ov = os.path.join(vlib.HARNESS, "overlay")
+        return {"core/timex/relativetime.go": os.path.join(ov, "timex", "relativetime.go"),
+                "core/timex/ticker.go": os.path.join(ov, "timex", "ticker.go"),
+                "core/collection/zz_verif_c16.go": os.path.join(ov, "collection", "zz_verif_c16.go")}
 
     def _consts(self):
         """Constants as written in the current source (the theorems hold for all values)."""
@@ -210,13 +283,11 @@ class C16(Property):
                    [["setseq", 0, 10, 1], ["churn", 777, 3, md - 1]] + probe + [["churn", 777, 3, 1], ["set", 5, 50]] + probe +
                    [["churn", 778, 4, 2], ["set", 778, 8], ["del", 3]] + probe +
                    [["churn", 779, 4, md + 1], ["set", 6, 60], ["del", 2]] + probe})
-        live = ct + 30
-        cs.append({"kind": "safemap", "ops":
-                   [["setseq", 0, live, 1], ["churn", 50000, 3, md + 1], ["size"], ["set", 5, 55], ["set", 60000, 7], ["get", 5],
-                    ["get", 60000], ["size"], ["delseq", 0, 25], ["size"], ["get", 5], ["get", 100], ["set", 100, 9],
-                    ["delseq", 25, 10], ["size"], ["get", 100], ["get", 60000], ["get", 500], ["set", 500, 2], ["get", 500],
-                    ["size"], ["get", 500], ["get", 60000], ["delseq", 200, ct // 2], ["size"],
-                    ["get", 500], ["get", live - 1], ["get", 60000], ["set", 70000, 1], ["del", 70000], ["size"]]})
+        # ... with >= copyThreshold live keys: writes switch to dirtyNew, dirtyNew is copied back after
+        # maxDeletion deletions of its own, then dirtyOld shrinks below copyThreshold and the generations
+        # are merged and swapped (every threshold crossed one operation at a time, probes around it)
+        import random
+        cs.append(self._gen_safemap_phased(random.Random(16), ["write", "mig2", "mig1", "refill"]))
         # queue: growth while wrapped
         cs.append({"kind": "queue", "size": 2, "ops":
                    [["put", 1], ["put", 2], ["take"], ["put", 3], ["put", 4], ["put", 5], ["take"], ["take"], ["put", 6],
@@ -266,12 +337,18 @@ class C16(Property):
 
     # ------------------------------------------------------------------ generators
     def gen(self, rng, n, tier):
-        kinds = (["window"] * 8 + ["safemap"] * 3 + ["queue"] * 3 + ["ring"] * 2 + ["set"] * 2 + ["cache"] * 3 +
-                 ["cachew"] * 3 + ["cache_take2"])
+        kinds = (["window"] * 5 + ["window_phased"] * 4 + ["safemap"] * 3 + ["queue"] + ["queue_phased"] * 3 +
+                 ["ring"] + ["ring_phased"] * 2 + ["set"] * 2 + ["cache"] * 2 + ["cache_phased"] * 3 +
+                 ["cachew"] * 3 + ["cache_take2"] + ["lin"] * 2)
         cases = []
         for _ in range(n):
             k = rng.choice(kinds)
             cases.append(getattr(self, "_gen_" + k)(rng, tier))
+        # SafeMap histories through several generation switches (tens of thousands of primitive
+        # operations each; they are evaluated on cores of their own)
+        light = [["write", "mig2", "mig1"], ["write", "mig1", "refill"], ["mig2", "write", "mig1", "refill"]]
+        for _ in range(1 if tier in ("quick", "search") else 12):
+            cases.append(self._gen_safemap_phased(rng, None if tier == "thorough" else rng.choice(light)))
         if tier == "thorough":
             for _ in range(24):
                 cases.append(self._gen_cache_rt(rng))
@@ -364,15 +441,22 @@ class C16(Property):
 
     def _gen_set(self, rng, tier):
         vals = [rng.randrange(5) for _ in range(rng.randint(1, 4))]
-        tags = rng.choice([[0], [1], [3], [0, 1], [0, 1, 2, 3]])
+        tags = rng.choice([[0], [1], [3], [4], [0, 1], [2, 4], [0, 1, 2, 3, 4]])
         keys = [t * TAG + v for t in tags for v in vals]
         ops = []
-        for _ in range(rng.randint(8, 50)):
+        # phases: grow, shrink (remove everything, also absent keys), grow again
+        bias = rng.choice([0.35, 0.5])
+        for i in range(rng.randint(8, 50)):
+            if i % 12 == 11:
+                bias = rng.choice([0.1, 0.35, 0.6])
             r = rng.random()
             k = rng.choice(keys)
-            if r < 0.35:
-                ops.append([rng.choice(["add", "addany"]), k])
-            elif r < 0.55:
+            if r < bias:
+                if rng.random() < 0.15:
+                    ops.append(["addmany"] + [rng.choice(keys) for _ in range(rng.randint(0, 3))])
+                else:
+                    ops.append([rng.choice(["add", "addany"]), k])
+            elif r < bias + 0.2:
                 ops.append(["remove", k])
             elif r < 0.80:
                 ops.append(["contains", k])
@@ -382,8 +466,9 @@ class C16(Property):
                 ops.append(["keys"])
             else:
                 ops.append(["keysof", rng.choice(tags)])
-        ops += [["count"], ["keys"]]
-        return {"kind": "set", "ignore": len(tags) == 1 and rng.random() < 0.5, "ops": ops}
+        ops += [["count"], ["keys"]] + [["keysof", t] for t in tags]
+        # a managed set (NewSet) fixes its type at the first Add and only LOGS mismatches
+        return {"kind": "set", "ignore": rng.random() < 0.4, "ops": ops}
 
     def _gen_cache(self, rng, tier):
         limit = rng.choice([0, 1, 2, 2, 3, 3, 5])
@@ -398,16 +483,18 @@ class C16(Property):
                 ops.append(["get", k])
             elif r < 0.73:
                 ops.append(["del", k])
+            elif r < 0.80:
+                ops.append(rng.choice([["held"], ["held"], ["size"]]))
             else:
                 ops.append(["take", k, None if rng.random() < 0.2 else rng.randrange(1000)])
         ks = list(range(nkeys))
         rng.shuffle(ks)
-        ops += [["get", k] for k in ks]          # probe: how many entries are held
-        return {"kind": "cache", "limit": limit, "ops": ops}
+        ops += [["held"]] + [["get", k] for k in ks]          # probe: how many entries are held
+        return {"kind": "cache", "limit": limit, "name": rng.random() < 0.2, "ops": ops}
 
     def _gen_cachew(self, rng, tier):
         iv, es = self._expiries_ms()
-        limit = rng.choice([0, 0, 2, 3])
+        limit = rng.choice([0, 0, 1, 2, 3])
         nkeys = max(2, limit + rng.randint(0, 2)) if limit else rng.randint(2, 4)
         sub = rng.random() < 0.08          # include sub-interval expiries (out of the quantifier)
         pick = lambda: rng.choice(es[1:5] + ([es[0]] if sub else []))
@@ -425,11 +512,14 @@ class C16(Property):
                 ops.append(["take", k, None if rng.random() < 0.15 else rng.randrange(1000)])
             else:
                 ops.append(["tick"])
-                if rng.random() < 0.5:
+                r2 = rng.random()
+                if r2 < 0.4:
                     ops += [["get", x] for x in rng.sample(range(nkeys), rng.randint(1, nkeys))]
+                elif r2 < 0.7:
+                    ops.append(rng.choice([["held"], ["held"], ["size"]]))
         if rng.random() < 0.45:
             ops += self._reset_scenario(rng, iv, es, rng.randrange(nkeys))
-        ops += [["tick"]] * rng.randint(0, 3) + [["get", x] for x in range(nkeys)]
+        ops += [["tick"]] * rng.randint(0, 3) + [["held"]] + [["get", x] for x in range(nkeys)]
         return {"kind": "cachew", "limit": limit, "expire_ms": rng.choice(es[1:4]), "ops": ops}
 
     def _reset_scenario(self, rng, iv, es, k):
@@ -448,7 +538,7 @@ class C16(Property):
             ops.append(["get", k])
         ops.append(["set", k, v2, e2 if rng.random() < 0.7 else e1])
         due = ops[-1][3] // iv
-        ops += [["tick"]] * (due - 1) + [["get", k], ["tick"], ["get", k], ["tick"], ["get", k]]
+        ops += [["tick"]] * (due - 1) + [["held"], ["get", k], ["tick"], ["held"], ["get", k], ["tick"], ["get", k]]
         return ops
 
     def _gen_cache_take2(self, rng, tier):
@@ -467,6 +557,301 @@ class C16(Property):
         rng.shuffle(ks)
         ops += [["get", k] for k in ks]
         return {"kind": "cache_take2", "limit": limit, "ops": ops}
+
+    # ---- multi-phase histories (fill / drain partially / refill past the old capacity, ...) ----
+    def _gen_window_phased(self, rng, tier):
+        """bursts of adds inside one interval, idle gaps around and far beyond the window length,
+        landings one before / on / one after a boundary, Reduce right after a burst"""
+        size = rng.choice([1, 2, 3, 3, 4, 5, 8])
+        iv = rng.choice([7, 1000, 1000, 250000000])
+        t0 = T0_BASE + rng.randrange(10 ** 9)
+        ig = rng.random() < 0.5
+        t = t0 + rng.choice([0, 0, 1, iv - 1, rng.randrange(iv)])
+        ops = []
+        v = 0
+
+        def burst(n):
+            nonlocal t, v
+            for _ in range(n):
+                v += 1
+                ops.append(["add", t, v])
+                if rng.random() < 0.5:       # stay inside the interval
+                    room = iv - 1 - (t - t0) % iv
+                    t += rng.randint(0, min(room, 3))
+        for _ in range(rng.randint(3, 7)):
+            burst(rng.randint(1, 4))
+            if rng.random() < 0.6:
+                ops.append(["reduce", t])
+            nb = t0 + ((t - t0) // iv + 1) * iv
+            gap = rng.choice([0, 1, size - 1, size, size + 1, size + 2, 2 * size, 2 * size + 1, 10 * size, 10 * size + 3])
+            t = nb + max(0, gap - 1) * iv + rng.choice([-1, 0, 0, 1, rng.randrange(iv)])
+            t = max(t, ops[-1][1])
+            if rng.random() < 0.4:
+                ops.append(["reduce", t])
+        burst(rng.randint(2, 4))
+        ops.append(["reduce", t])
+        ops.append(["reduce", t0 + ((t - t0) // iv + 1) * iv])
+        ops.append(["reduce", t0 + ((t - t0) // iv + size) * iv - 1])
+        ops.append(["reduce", t0 + ((t - t0) // iv + size) * iv])
+        c = {"kind": "window", "size": size, "interval": iv, "t0": t0, "ignore": ig, "ops": ops}
+        if rng.random() < 0.3:
+            c["bucket"] = "sum"
+        return c
+
+    def _gen_queue_phased(self, rng, tier):
+        """fill to capacity, drain partially (head leaves slot 0, sometimes by more than the growth
+        step), refill past the old capacity (growth while wrapped) - several times over"""
+        size = rng.choice([1, 2, 2, 3, 4, 5])
+        q = QueueSim(size)
+        ops = []
+        v = 0
+
+        def put(n=1):
+            nonlocal v
+            for _ in range(n):
+                v += 1
+                ops.append(["put", v])
+                q.put()
+
+        def take(n=1):
+            for _ in range(n):
+                ops.append(["take"])
+                q.take()
+        for _ in range(rng.randint(2, 5)):
+            put(q.cap - q.count)                                   # full
+            if rng.random() < 0.3:
+                put(rng.randint(1, size))                          # growth with head where it is
+            if q.count > 1:
+                take(rng.randint(1, q.count - 1))                  # head != 0, items stay in flight
+            while not q.will_grow():                               # full again, wrapped
+                put()
+            put(rng.randint(1, size + 1))                          # grows (maybe twice)
+            if rng.random() < 0.3:
+                ops.append(["empty"])
+            if rng.random() < 0.25:
+                take(q.count + rng.randint(0, 1))                  # drain completely, start over
+                ops.append(["empty"])
+        take(q.count + 1)
+        ops.append(["empty"])
+        return {"kind": "queue", "size": size, "ops": ops}
+
+    def _gen_ring_phased(self, rng, tier):
+        """runs of n-1 / n / n+1 / 2n-1 / 2n / 2n+1 ... adds, a Take after each; the index folds
+        back several times"""
+        n = rng.choice([1, 2, 3, 3, 4, 5, 6])
+        ops = [["take"]] if rng.random() < 0.3 else []
+        v = 0
+        total = 0
+        rounds = rng.randint(3, 6)
+        for r in range(rounds):
+            a = rng.choice([1, n - 1, n, n + 1, 2 * n - 1, 2 * n, 2 * n + 1, 3 * n])
+            if r == rounds - 1 and total + a <= 4 * n:
+                a = 4 * n + 1 - total
+            for _ in range(max(a, 1)):
+                v += 1
+                total += 1
+                ops.append(["add", v])
+            ops.append(["take"])
+        return {"kind": "ring", "size": n, "ops": ops}
+
+    def _gen_cache_phased(self, rng, tier):
+        """limit 1..3: fill; touch in a chosen order (Get / Take hit / overwrite); insert new keys
+        (evictions, observed with `held`, which does not touch the recency order); write the evicted
+        key again; Del then Set of one key; loader failures; a Set racing a Take's miss"""
+        limit = rng.choice([1, 1, 2, 2, 3])
+        nkeys = limit + rng.randint(2, 3)
+        lru = LruSim(limit)
+        ops = []
+
+        def do(o):
+            ops.append(o)
+            lru.apply(o)
+        val = lambda: rng.randrange(1000)
+        fresh = lambda: [k for k in range(nkeys) if not lru.has(k)]
+        ks = list(range(limit))
+        rng.shuffle(ks)
+        for k in ks:
+            do(["set", k, val()])
+        ops.append(["held"])
+        for _ in range(rng.randint(3, 7)):
+            ph = rng.choice(["touch", "evict", "readd", "delset", "fail", "race", "delevict"])
+            if ph == "touch":
+                for k in rng.sample(lru.order, rng.randint(1, len(lru.order))) if lru.order else []:
+                    do(rng.choice([["get", k], ["take", k, val()], ["set", k, val()], ["take", k, None]]))
+            elif ph == "evict" and fresh():
+                k = rng.choice(fresh())
+                do(rng.choice([["set", k, val()], ["take", k, val()]]))
+                ops.append(["held"])
+            elif ph == "readd" and lru.last_evicted is not None and not lru.has(lru.last_evicted):
+                do(["set", lru.last_evicted, val()])
+                ops.append(["held"])
+            elif ph == "delset" and lru.order:
+                k = rng.choice(lru.order)
+                do(["del", k])
+                if rng.random() < 0.3:
+                    ops.append(["get", k])
+                do(["set", k, val()])
+                ops.append(["held"])
+            elif ph == "fail" and fresh():
+                k = rng.choice(fresh())
+                do(["take", k, None])
+                ops += [["held"], ["size"]]
+                if rng.random() < 0.5:
+                    do(["take", k, val()])
+            elif ph == "race" and fresh():
+                k = rng.choice(fresh())
+                do(["take_race", k, rng.choice([None, val()]), val()])
+                ops.append(["held"])
+            elif ph == "delevict" and lru.order:
+                do(["del", rng.choice(lru.order + [nkeys + 5])])
+                for k in fresh()[:2]:
+                    do(["set", k, val()])
+                ops.append(["held"])
+            if rng.random() < 0.3:
+                ops.append(["size"])
+        ks = list(range(nkeys))
+        rng.shuffle(ks)
+        ops += [["held"], ["size"]] + [["get", k] for k in ks]
+        return {"kind": "cache", "limit": limit, "name": rng.random() < 0.3, "ops": ops}
+
+    def _gen_safemap_phased(self, rng, phases=None):
+        """SafeMap through its generations, steered by a simulator of the two maps and counters:
+        fill with >= copyThreshold keys; delete past maxDeletion (writes switch to dirtyNew);
+        overwrite / delete keys of both generations; delete maxDeletion times from dirtyNew (second
+        migration, possibly twice); shrink dirtyOld below copyThreshold (first migration); every
+        threshold is approached in bulk and crossed one operation at a time with probes around it."""
+        ct, md = self._consts()
+        sim = SafeMapSim(ct, md)
+        ops = []
+
+        def do(o):
+            ops.append(o)
+            sim.apply(o)
+        live = ct + rng.randint(0, 25)
+        K = 10 ** 6                      # churn keys, outside the range of the live keys
+        probes = lambda: [["size"], ["get", rng.randrange(live)], ["get", K], ["get", K + 1]]
+        do(["setseq", 0, live, rng.randrange(100)])
+        # phase 1: deletionOld climbs to maxDeletion with >= copyThreshold live keys
+        do(["churn", K, 1, max(0, md - 2)])
+        for _ in range(4):
+            do(["set", K, 2])
+            do(["del", K])
+            ops += [["size"], ["get", K]]
+        plan = phases or rng.choice([["write", "mig2", "mig1"], ["write", "mig2", "write", "mig2", "mig1"],
+                                     ["write", "mig1"], ["mig2", "write", "mig1", "refill"]])
+        for ph in plan:
+            if ph == "write":
+                # draining: overwrites move keys from dirtyOld to dirtyNew, new keys go to dirtyNew
+                for _ in range(rng.randint(4, 10)):
+                    r = rng.random()
+                    k = rng.choice([rng.randrange(live), live + rng.randrange(20), K + 1])
+                    if r < 0.45:
+                        do(["set", k, rng.randrange(1000)])
+                    elif r < 0.7:
+                        do(["del", k])
+                    else:
+                        ops.append(["get", k])
+                ops += probes()
+                if rng.random() < 0.5:
+                    ops += [["rangestop", rng.choice([1, 2, 5, len(sim.old), len(sim.old) + 1, 10 ** 6])], ["range"]]
+            elif ph == "mig2" and sim.draining():
+                # deletionNew climbs to maxDeletion: dirtyNew is copied back into dirtyOld
+                need = md - sim.dn
+                if need > 3:
+                    do(["churn", K + 2, 7, need - 2])
+                for _ in range(4):
+                    do(["set", K + 2, 8])
+                    ops.append(["get", K + 2])
+                    do(["del", K + 2])
+                    ops += [["size"], ["get", K + 2]]
+                ops += probes()
+            elif ph == "mig1" and sim.draining():
+                # dirtyOld shrinks below copyThreshold: the generations are merged and swapped
+                oldkeys = sorted(k for k in sim.old if k < live)
+                # delete runs of consecutive keys; stop two short of the threshold
+                excess = len(sim.old) - ct
+                run_start = None
+                deleted = 0
+                i = 0
+                while deleted < excess - 1 and i < len(oldkeys):
+                    j = i
+                    while j + 1 < len(oldkeys) and oldkeys[j + 1] == oldkeys[j] + 1 and (j + 1 - i) < excess - 1 - deleted:
+                        j += 1
+                    do(["delseq", oldkeys[i], j - i + 1])
+                    deleted += j - i + 1
+                    i = j + 1
+                rest = sorted(k for k in sim.old if k < live)
+                for k in rest[:4]:
+                    do(["del", k])
+                    ops += [["size"], ["get", k], ["get", rest[-1]]]
+                ops += probes()
+                ops += [["rangestop", 3], ["range"]]
+            elif ph == "refill":
+                do(["setseq", 2 * 10 ** 6, rng.randint(3, 30), 5])
+                do(["delseq", 2 * 10 ** 6, 2])
+                ops += probes()
+        for _ in range(rng.randint(3, 8)):
+            k = rng.choice([rng.randrange(live), K, K + 1, K + 2])
+            do(rng.choice([["set", k, rng.randrange(1000)], ["del", k]]))
+            ops.append(["get", k])
+        ops += [["size"], ["rangestop", 2], ["range"]]
+        return {"kind": "safemap", "ops": ops}
+
+    # ---- free-running goroutines (linearisability) -----------------------------------------
+    def _gen_lin(self, rng, tier):
+        obj = rng.choice(["queue", "queue", "ring", "cache", "cache", "safemap", "window"])
+        nthreads = rng.choice([2, 3, 3])
+        per = rng.randint(2, 4) if nthreads == 3 else rng.randint(3, 5)
+        c = {"kind": "lin", "obj": obj, "pre": [], "threads": []}
+        v = [0]
+
+        def val():
+            v[0] += 1
+            return v[0]
+        if obj == "queue":
+            c["size"] = rng.choice([1, 2, 3])
+            q = QueueSim(c["size"])
+            # sequential prefix: grown once and wrapped, full or nearly full
+            for _ in range(rng.randint(0, 2)):
+                n = q.cap - q.count + rng.randint(0, 1)
+                c["pre"] += [["put", val()] for _ in range(n)]
+                for _ in range(n):
+                    q.put()
+                t = rng.randint(0, max(0, q.count - 1))
+                c["pre"] += [["take"]] * t
+                for _ in range(t):
+                    q.take()
+            mk = lambda: rng.choice([["put", val()], ["put", val()], ["take"], ["take"], ["empty"]])
+        elif obj == "ring":
+            c["size"] = rng.choice([1, 2, 3])
+            c["pre"] = [["add", val()] for _ in range(rng.choice([0, c["size"] - 1, c["size"], 2 * c["size"] - 1]))]
+            mk = lambda: rng.choice([["add", val()], ["add", val()], ["take"]])
+        elif obj == "cache":
+            # Take's miss -> load -> store is not one atomic step (a Set of the same key in between
+            # is overwritten by the loaded value): keys that are Set are never Taken here, see notes
+            c["limit"] = rng.choice([0, 1, 2])
+            nk = max(2, c["limit"] + 1)
+            sk = lambda: rng.randrange(nk)            # keys written with Set
+            tk = lambda: 10 + rng.randrange(2)        # keys written by Take only
+            c["pre"] = [["set", k, val()] for k in range(rng.randint(0, nk))]
+            mk = lambda: rng.choice([["set", sk(), val()], ["get", rng.choice([sk(), tk()])], ["take", tk(), val()],
+                                     ["del", rng.choice([sk(), tk()])], ["held"], ["size"]])
+        elif obj == "safemap":
+            ct, md = self._consts()
+            if rng.random() < 0.5:
+                # start a few deletions before a threshold so that the concurrent part crosses it
+                if tier != "thorough" or rng.random() < 0.7:
+                    c["pre"] = [["setseq", 0, 3, 1], ["churn", 9, 1, md - rng.randint(1, 3)]]
+                else:
+                    c["pre"] = [["setseq", 0, ct + 2, 1], ["churn", 9, 1, md - rng.randint(0, 2)]]
+            mk = lambda: rng.choice([["set", rng.randrange(4), val()], ["get", rng.randrange(4)], ["del", rng.randrange(4)],
+                                     ["del", rng.randrange(4)], ["size"]] + ([["range"]] if not c["pre"] or c["pre"][0][2] < 10 else []))
+        else:
+            c.update({"size": rng.choice([1, 3]), "interval": 1000, "t0": T0_BASE + rng.randrange(10 ** 6),
+                      "ignore": rng.random() < 0.3})
+            mk = lambda: rng.choice([["cadd", val()], ["cadd", val()], ["creduce"]])
+        c["threads"] = [[mk() for _ in range(per)] for _ in range(nthreads)]
+        return c
 
     def _gen_cache_rt(self, rng):
         expire = rng.choice([2000, 3000])
@@ -503,6 +888,8 @@ class C16(Property):
                 o = {"obs": r["obs"], "at": r.get("at")}
                 if r.get("pair") is not None:
                     o["pair"] = r["pair"]
+                if r.get("free") is not None:
+                    o["free"] = r["free"]
                 obs.append(o)
         return obs
 
@@ -510,32 +897,49 @@ class C16(Property):
     def coq_case(self, case, obs):
         k = case["kind"]
         seen = obs["obs"]
+        if k == "lin":
+            return self._lin_case(case, obs)
         if obs.get("err"):
             # make the mismatch visible: one extra observation that no model produces
             seen = list(seen) + [["num", -424242]] if k != "window" else list(seen) + [[[-424242]]]
         if k == "window":
             ops = clist(["WAdd %s %s" % (cz(o[1]), cz(o[2])) if o[0] == "add" else "WReduce %s" % cz(o[1])
                          for o in case["ops"]])
+            hd = "%s %s %s %s %s" % (cz(case["size"]), cz(case["interval"]), cz(case["t0"]),
+                                      cbool(case.get("ignore", False)), ops)
+            if case.get("bucket") == "sum":
+                ob = clist([clist(["(%s, %s)" % (cz(b[0]), cz(b[1] if len(b) > 1 else 0)) for b in red]) for red in seen])
+                return "KWindowSum %s %s" % (hd, ob)
             ob = clist([clist([clist([cz(v) for v in b]) for b in red]) for red in seen])
-            return "KWindow %s %s %s %s %s %s" % (cz(case["size"]), cz(case["interval"]), cz(case["t0"]),
-                                                   cbool(case.get("ignore", False)), ops, ob)
-        so = clist([_obs(o) for o in seen])
+            return "KWindow %s %s" % (hd, ob)
         if k == "safemap":
-            return "KSafeMap %s %s %s %s" % (cz(self.copy_thr), cz(self.max_del),
-                                              clist([self._mop(o) for o in case["ops"]]), so)
+            # what a stopped Range was shown is an oracle argument of the operation
+            mops, rest = [], []
+            it = iter(seen)
+            for o in case["ops"]:
+                if o[0] == "rangestop":
+                    r = next(it, None)
+                    vis = r[1] if (r and r[0] == "pairs") else [[-424242, 0]]
+                    mops.append("MRangeStop %s %s" % (cz(o[1]), clist(["(%s, %s)" % (cz(a), cz(b)) for a, b in vis])))
+                else:
+                    if o[0] in ("get", "size", "range"):
+                        r = next(it, None)
+                        if r is not None:
+                            rest.append(r)
+                    mops.append(self._mop(o))
+            rest += list(it)
+            return "KSafeMap %s %s %s %s" % (cz(self.copy_thr), cz(self.max_del), clist(mops), clist([_obs(o) for o in rest]))
+        so = clist([_obs(o) for o in seen])
         if k == "queue":
-            ops = clist(["QPut %s" % cz(o[1]) if o[0] == "put" else ("QTake" if o[0] == "take" else "QEmpty")
-                         for o in case["ops"]])
-            return "KQueue %s %s %s" % (cz(case["size"]), ops, so)
+            return "KQueue %s %s %s" % (cz(case["size"]), clist([self._qop(o) for o in case["ops"]]), so)
         if k == "ring":
-            ops = clist(["RAdd %s" % cz(o[1]) if o[0] == "add" else "RTake" for o in case["ops"]])
-            return "KRing %s %s %s" % (cz(case["size"]), ops, so)
+            return "KRing %s %s %s" % (cz(case["size"]), clist([self._rop(o) for o in case["ops"]]), so)
         if k == "set":
-            return "KSet %s %s" % (clist([self._sop(o) for o in case["ops"]]), so)
+            return "KSet %s %s" % (clist(sum([self._sops(o) for o in case["ops"]], [])), so)
         if k == "cache":
-            return "KCache %s %s %s" % (cz(case["limit"]), clist([self._cop(o) for o in case["ops"]]), so)
+            return "KCache %s %s %s" % (cz(case["limit"]), clist(sum([self._ccops(o) for o in case["ops"]], [])), so)
         if k == "cache_rt":
-            return "KCache %s %s %s" % (cz(case["limit"]), clist([self._cop(o) for o in self._rt_ops(case, obs)]), so)
+            return "KCache %s %s %s" % (cz(case["limit"]), clist(sum([self._ccops(o) for o in self._rt_ops(case, obs)], [])), so)
         if k == "cachew":
             c = self.consts
             iv_ms = c["interval_ns"] // 10 ** 6
@@ -555,8 +959,63 @@ class C16(Property):
                     ops.append(o)
             if bad:
                 so = clist([_obs(o) for o in seen] + ["ONum (-424243)"])
-            return "KCache %s %s %s" % (cz(case["limit"]), clist([self._cop(o) for o in ops]), so)
+            return "KCache %s %s %s" % (cz(case["limit"]), clist(sum([self._ccops(o) for o in ops], [])), so)
         raise ValueError(k)
+
+    def _lin_case(self, case, obs):
+        obj = case["obj"]
+        ren = {"queue": self._qop, "ring": self._rop, "safemap": self._smop, "window": self._wlop,
+               "cache": lambda o: self._ccops(o)[0]}[obj]
+        evs = []
+        free = obs.get("free") or []
+        if obs.get("err") or len(free) != len(case["threads"]) or any(len(f) != len(t) for f, t in zip(free, case["threads"])):
+            # a panic / deadlock / missing call: an event no sequential run explains
+            evs.append("mkLev 0 0 %s (ONum (-424242))" % ren(case["threads"][0][0]))
+        else:
+            for script, f in zip(case["threads"], free):
+                for o, e in zip(script, f):
+                    evs.append("mkLev %s %s %s (%s)" % (cz(e["s"]), cz(e["e"]), self._paren(ren(o)),
+                                                        _obs(e["obs"]) if e.get("obs") is not None else "OUnit"))
+        ev = clist(evs)
+        if obj == "queue":
+            return "KLinQueue %s %s %s" % (cz(case["size"]), clist([self._qop(o) for o in case["pre"]]), ev)
+        if obj == "ring":
+            return "KLinRing %s %s %s" % (cz(case["size"]), clist([self._rop(o) for o in case["pre"]]), ev)
+        if obj == "safemap":
+            return "KLinMap %s %s %s %s" % (cz(self.copy_thr), cz(self.max_del), clist([self._mop(o) for o in case["pre"]]), ev)
+        if obj == "cache":
+            return "KLinCache %s %s %s" % (cz(case["limit"]), clist(sum([self._ccops(o) for o in case["pre"]], [])), ev)
+        if obj == "window":
+            return "KLinWindow %s %s %s %s %s" % (cz(case["size"]), cz(case["interval"]), cz(case["t0"]),
+                                                   cbool(case.get("ignore", False)), ev)
+        raise ValueError(obj)
+
+    @staticmethod
+    def _paren(t):
+        return "(%s)" % t if " " in t else t
+
+    def _qop(self, o):
+        return "QPut %s" % cz(o[1]) if o[0] == "put" else ("QTake" if o[0] == "take" else "QEmpty")
+
+    def _rop(self, o):
+        return "RAdd %s" % cz(o[1]) if o[0] == "add" else "RTake"
+
+    def _wlop(self, o):
+        return "WLAdd %s" % cz(o[1]) if o[0] == "cadd" else "WLReduce"
+
+    def _smop(self, o):
+        t = o[0]
+        if t == "set":
+            return "MSet %s %s" % (cz(o[1]), cz(o[2]))
+        if t == "get":
+            return "MGet %s" % cz(o[1])
+        if t == "del":
+            return "MDel %s" % cz(o[1])
+        if t == "size":
+            return "MSize"
+        if t == "range":
+            return "MRange"
+        raise ValueError(o)
 
     def _mop(self, o):
         t = o[0]
@@ -578,48 +1037,62 @@ class C16(Property):
             return "MChurn %s %s %s" % (cz(o[1]), cz(o[2]), cz(o[3]))
         raise ValueError(o)
 
-    def _sop(self, o):
+    def _sops(self, o):
         t = o[0]
         if t in ("add", "addany"):
-            return "SAdd %s" % cz(o[1])
+            return ["SAdd %s" % cz(o[1])]
+        if t == "addmany":
+            return ["SAdd %s" % cz(k) for k in o[1:]]
         if t == "remove":
-            return "SRemove %s" % cz(o[1])
+            return ["SRemove %s" % cz(o[1])]
         if t == "contains":
-            return "SContains %s" % cz(o[1])
+            return ["SContains %s" % cz(o[1])]
         if t == "count":
-            return "SCount"
+            return ["SCount"]
         if t == "keys":
-            return "SKeys"
+            return ["SKeys"]
         if t == "keysof":
-            return "SKeysOf %s" % cz(o[1])
+            return ["SKeysOf %s" % cz(o[1])]
         raise ValueError(o)
 
-    def _cop(self, o):
+    def _ccops(self, o):
         t = o[0]
+        fetch = lambda f: "None" if f is None else "(Some %s)" % cz(f)
         if t == "set":
-            return "CSet %s %s" % (cz(o[1]), cz(o[2]))
+            return ["CC (CSet %s %s)" % (cz(o[1]), cz(o[2]))]
         if t == "get":
-            return "CGet %s" % cz(o[1])
+            return ["CC (CGet %s)" % cz(o[1])]
         if t == "del":
-            return "CDel %s" % cz(o[1])
+            return ["CC (CDel %s)" % cz(o[1])]
         if t == "take":
-            return "CTake %s %s" % (cz(o[1]), "None" if o[2] is None else "(Some %s)" % cz(o[2]))
+            return ["CC (CTake %s %s)" % (cz(o[1]), fetch(o[2]))]
+        if t == "take_race":
+            # "another goroutine" stored the key between the Take's miss and its single flight
+            return ["CC (CSet %s %s)" % (cz(o[1]), cz(o[3])), "CC (CTake %s %s)" % (cz(o[1]), fetch(o[2]))]
         if t == "expire":
-            return "CExpire %s" % cz(o[1])
+            return ["CC (CExpire %s)" % cz(o[1])]
+        if t == "held":
+            return ["CHeld"]
+        if t == "size":
+            return ["CSize"]
         raise ValueError(o)
 
     def _xop(self, o, default_ms):
         t = o[0]
         if t == "set":
-            return "XSet %s %s %s" % (cz(o[1]), cz(o[2]), cz(o[3]))
+            return "XX (XSet %s %s %s)" % (cz(o[1]), cz(o[2]), cz(o[3]))
         if t == "get":
-            return "XGet %s" % cz(o[1])
+            return "XX (XGet %s)" % cz(o[1])
         if t == "del":
-            return "XDel %s" % cz(o[1])
+            return "XX (XDel %s)" % cz(o[1])
         if t == "take":
-            return "XTake %s %s %s" % (cz(o[1]), "None" if o[2] is None else "(Some %s)" % cz(o[2]), cz(default_ms))
+            return "XX (XTake %s %s %s)" % (cz(o[1]), "None" if o[2] is None else "(Some %s)" % cz(o[2]), cz(default_ms))
         if t == "tick":
-            return "XTick"
+            return "XX XTick"
+        if t == "held":
+            return "XHeld"
+        if t == "size":
+            return "XSize"
         raise ValueError(o)
 
     def _rt_ops(self, case, obs):
@@ -662,6 +1135,14 @@ class C16(Property):
     # ------------------------------------------------------------------ evidence
     def nontrivial(self, case, obs):
         k = case["kind"]
+        if k == "lin":
+            # two calls of different goroutines overlapped in time
+            free = obs.get("free") or []
+            for i, a in enumerate(free):
+                for b in free[i + 1:]:
+                    if any(x["s"] < y["e"] and y["s"] < x["e"] for x in a for y in b):
+                        return True
+            return False
         ops = case["ops"]
         seen = obs["obs"]
         if k == "window":
@@ -697,8 +1178,10 @@ class C16(Property):
         if k == "cachew":
             # an entry was seen present and later, after ticks only (no Del of it), absent
             was = set()
-            gets = [o for o in ops if o[0] in ("get", "take")]
+            gets = [o for o in ops if o[0] in ("get", "take", "held", "size")]
             for o, r in zip(gets, seen):
+                if o[0] in ("held", "size"):
+                    continue
                 hit = (r[0] == "opt" and r[1] is not None) or (r[0] == "take" and not r[2])
                 if hit:
                     was.add(o[1])
@@ -708,13 +1191,18 @@ class C16(Property):
         if k == "cache_take2":
             return bool(obs.get("pair"))
         if k in ("cache", "cache_rt"):
-            written = set(o[1] for o in ops if o[0] in ("set", "take"))
+            written = set(o[1] for o in ops if o[0] in ("set", "take", "take_race"))
             miss = any(o[0] == "take" and o[2] for o in seen)
             return miss or (case["limit"] > 0 and len(written) > case["limit"])
         return False
 
     def features(self, case, obs):
         k = case["kind"]
+        if k == "lin":
+            fs = ["kind=lin", "lin:obj=" + case["obj"], "lin:threads=%d" % len(case["threads"])]
+            if obs.get("err"):
+                fs.append("executor_error")
+            return fs
         fs = ["kind=" + k, "%s:ops<=%d" % (k, 10 * (1 + len(case["ops"]) // 10))]
         if k == "window":
             fs.append("window:size=%d" % case["size"])
@@ -737,8 +1225,24 @@ class C16(Property):
             dels = sum(o[3] if o[0] == "churn" else (o[2] if o[0] == "delseq" else (1 if o[0] == "del" else 0))
                        for o in case["ops"])
             fs.append("safemap:deletions>=maxDeletion" if dels >= self.max_del else "safemap:deletions<maxDeletion")
+            if dels >= self.max_del:
+                for h in sorted(SafeMapSim(self.copy_thr, self.max_del).run(case["ops"]).hits):
+                    fs.append("safemap:" + h)
+            if any(o[0] == "rangestop" for o in case["ops"]):
+                fs.append("safemap:range-stopped")
         elif k in ("queue", "ring"):
             fs.append("%s:size=%d" % (k, case["size"]))
+            if k == "queue":
+                q = QueueSim(case["size"])
+                for o in case["ops"]:
+                    if o[0] == "put":
+                        q.put()
+                    elif o[0] == "take":
+                        q.take()
+                fs.append("queue:growths=%s" % (q.grown if q.grown < 3 else ">=3"))
+                fs.append("queue:growths_while_wrapped=%s" % (q.grown_wrapped if q.grown_wrapped < 2 else ">=2"))
+        elif k == "set":
+            fs.append("set:managed" if case.get("ignore") else "set:unmanaged")
         elif k in ("cache", "cache_rt", "cachew", "cache_take2"):
             fs.append("%s:limit=%d" % (k, case["limit"]))
             if k == "cachew":
@@ -759,9 +1263,21 @@ class C16(Property):
         return None
 
     def _weight(self, case):
+        if case["kind"] == "lin":
+            return 0
         return sum((self._bulk(o) or (0, 1))[1] for o in case["ops"])
 
     def shrink_candidates(self, case):
+        if case["kind"] == "lin":
+            res = []
+            for i, th in enumerate(case["threads"]):
+                for j in range(len(th)):
+                    c = dict(case)
+                    c["threads"] = [t if x != i else t[:j] + t[j + 1:] for x, t in enumerate(case["threads"])]
+                    c["threads"] = [t for t in c["threads"] if t]
+                    if c["threads"]:
+                        res.append(c)
+            return res
         ops = case["ops"]
         res = []
         # shorten bulk runs first (halve, and to just below / at the threshold)
@@ -794,6 +1310,8 @@ class C16(Property):
             "cache_rt": "Cache entry outlived its expiry window, expired early, or was lost",
             "cachew": "Cache entry driven by its timing wheel was not present exactly until the floor(expiry/interval)-th tick after its last Set",
             "cache_take2": "two concurrent Takes of one key were not equivalent to one load: loader ran twice, the second caller got another value, or more than one entry / eviction",
+            "lin": "free-running goroutines on one %s: the observed results have no explanation as a sequential run consistent "
+                   "with the real-time order of the calls (or a goroutine panicked / never returned)" % case.get("obj"),
         }.get(k, "property check failed")
         if obs.get("err"):
             what += " (implementation error: %s)" % obs["err"]
